@@ -109,6 +109,15 @@ def cells(tier):
             for sc in ("0.1", "1.1", "3", "True", "300"):
                 for form in ("np", "mg", "operator", "reflected"):
                     yield ("W", fn, dt, sc, form)
+    # in-place forms on tensors of every layout, directly and through views (the written memory must end up like NumPy's)
+    for form in ("imul", "iadd_arr", "set_all", "set_idx", "mg_out", "np_out", "masked_out"):
+        for lay in ("C", "F", "Tview"):
+            for vk in ("none", "T.reshape(-1)", "reshape(-1)", "rev", "col", "T", "ravel"):
+                yield ("IP", form, lay, vk)
+    # out= of the non-ufunc functions that accept it
+    for fn in ("einsum_ij,jk->ik", "einsum_ij->j", "einsum_i,i->", "clip"):
+        for tgt in ("ndarray", "tensor", "tensor_view", "ndarray_view"):
+            yield ("OUT", fn, tgt)
     RED = ["sum", "mean", "prod", "var", "std", "max", "min", "cumsum", "cumprod", "any", "argmax", "argmin"]
     for r in RED:
         for dt in DTYPES:
@@ -351,6 +360,112 @@ def check(cell):
             return a
 
         return compare(aug_mg, aug_np, None)
+    if kind == "IP":
+        _, form, lay, vk = cell
+
+        def build(as_tensor):
+            a = np.arange(6.0).reshape(2, 3) * 0.75 - 1.0
+            if lay == "F":
+                a = np.asfortranarray(a)
+            elif lay == "Tview":
+                a = np.ascontiguousarray(a.T).T  # F-ordered values, same shape
+            root = mg.tensor(a, copy=False) if as_tensor else a
+            if lay == "Tview" and as_tensor:
+                root = mg.tensor(np.ascontiguousarray(a.T))
+                root = root.T if False else mg.tensor(a, copy=False)
+            take = {"none": lambda r: r, "T.reshape(-1)": lambda r: r.T.reshape(-1), "reshape(-1)": lambda r: r.reshape(-1), "rev": lambda r: r[::-1],
+                    "col": lambda r: r[:, 1], "T": lambda r: r.T, "ravel": lambda r: r.ravel()}[vk]
+            return root, take(root)
+
+        def run(as_tensor, tracked=True):
+            root, v = build(as_tensor)
+            shares = np.shares_memory(np.asarray(v.data if as_tensor else v), np.asarray(root.data if as_tensor else root))
+            c = np.arange(int(np.prod(v.shape)), dtype=float).reshape(v.shape) + 10.0
+            msk = (np.arange(int(np.prod(v.shape))).reshape(v.shape) % 2 == 0)
+            if form == "imul":
+                v *= 2.0
+            elif form == "iadd_arr":
+                v += c
+            elif form == "set_all":
+                v[...] = c
+            elif form == "set_idx":
+                v[0] = -5.0
+            elif form == "mg_out":
+                (mg.multiply if as_tensor else np.multiply)(v, 2.0, out=v)
+            elif form == "np_out":
+                np.add(v, 1.0, out=v)
+            else:
+                (mg.multiply if as_tensor else np.multiply)(v, 3.0, out=v, where=msk)
+            return (np.array(root.data if as_tensor else root), np.array(v.data if as_tensor else v), shares)
+
+        rn = call(lambda: run(False))
+        for tracked in (True, False):
+            if tracked:
+                rm = call(lambda: run(True))
+            else:
+                with mg.no_autodiff:
+                    rm = call(lambda: run(True))
+            pre = "" if tracked else "untracked_"
+            if rn[0] == "err" or rm[0] == "err":
+                if rn[0] != rm[0]:
+                    return (pre + "exception", "numpy: %s, mygrad: %s" % (rn[:2], rm[:2]))
+                continue
+            for label, a, b_ in (("root", rm[1][0], rn[1][0]), ("target", rm[1][1], rn[1][1])):
+                if a.shape != b_.shape or not np.array_equal(a, b_):
+                    return (pre + "value", "%s after the update: mygrad %s, numpy %s" % (label, np.array2string(a.ravel(), precision=4), np.array2string(b_.ravel(), precision=4)))
+            if rm[1][2] != rn[1][2]:
+                return (pre + "aliasing", "target shares memory with its root: mygrad %r, numpy %r" % (rm[1][2], rn[1][2]))
+        return None
+    if kind == "OUT":
+        _, fn, tgt = cell
+        A_ = np.arange(6.0).reshape(2, 3) * 0.5 - 1.0
+        B_ = np.arange(12.0).reshape(3, 4) * 0.25 + 0.5
+        V_ = np.array([1.5, -2.0, 0.75])
+        if fn.startswith("einsum_"):
+            sub = fn.split("_", 1)[1]
+            ops_ = {"ij,jk->ik": (A_, B_), "ij->j": (A_,), "i,i->": (V_, V_)}[sub]
+            npcall = lambda out, *a: np.einsum(sub, *a, out=out)
+            mgcall = lambda out, *a: mg.einsum(sub, *a, out=out)
+        else:
+            ops_ = (A_,)
+            npcall = lambda out, a: np.clip(a, -0.5, 0.75, out=out)
+            mgcall = lambda out, a: mg.clip(a, -0.5, 0.75, out=out)
+        oshape = np.shape(npcall(None, *ops_) if fn.startswith("einsum") else np.clip(A_, -0.5, 0.75))
+
+        def run(as_tensor):
+            big = np.full((2,) + tuple(oshape), 7.0)
+            if tgt in ("ndarray", "tensor"):
+                root = np.full(oshape, 7.0)
+                if tgt == "tensor" and as_tensor:
+                    root = mg.tensor(root, copy=False)
+                target = root
+            else:
+                root = mg.tensor(big, copy=False) if (tgt == "tensor_view" and as_tensor) else big
+                target = root[1, ...]
+            if as_tensor:
+                r = mgcall(target, *[mg.tensor(o) for o in ops_])
+            else:
+                r = npcall(target, *ops_)
+            # (a tracked update gives a tensor target a new array: the target is read through the tensor, not through the array it wrapped)
+            return (np.array(root.data if isinstance(root, mg.Tensor) else root), np.array(r.data if isinstance(r, mg.Tensor) else r))
+
+        rn = call(lambda: run(False))
+        for tracked in (True, False):
+            if tracked:
+                rm = call(lambda: run(True))
+            else:
+                with mg.no_autodiff:
+                    rm = call(lambda: run(True))
+            pre = "" if tracked else "untracked_"
+            if rn[0] == "err" or rm[0] == "err":
+                if rn[0] != rm[0]:
+                    return (pre + "exception", "numpy: %s, mygrad: %s" % (rn[:2], rm[:2]))
+                continue
+            if not np.array_equal(rm[1][0], rn[1][0]):
+                return (pre + "out_value", "memory of the out= target after the call: mygrad %s, numpy %s" % (np.array2string(rm[1][0].ravel(), precision=4), np.array2string(rn[1][0].ravel(), precision=4)))
+            if rm[1][1].shape != rn[1][1].shape or not np.array_equal(rm[1][1], rn[1][1]):
+                return (pre + "value", "returned value differs from numpy")
+        return None
     if kind == "W":
         _, fn, dt, sc, form = cell
         scv = {"0.1": 0.1, "1.1": 1.1, "3": 3, "True": True, "300": 300}[sc]
@@ -445,7 +560,7 @@ def outcome(cell):
 
 
 def signature(cell, f):
-    return base.stable_hash((cell[0], cell[1] if cell[0] in ("U", "B", "O", "O1", "R", "SEQ", "SQ", "W") else (cell[4] if cell[0] == "P" else ""), f[0], f[1][:24]))
+    return base.stable_hash((cell[0], cell[1] if cell[0] in ("U", "B", "O", "O1", "R", "SEQ", "SQ", "W", "IP", "OUT") else (cell[4] if cell[0] == "P" else ""), f[0], f[1][:24]))
 
 
 def script(cell, f):
